@@ -578,3 +578,71 @@ M("C16-project-key-not-restored", "C16", "R16.1", PJ,
 B("benign-export-dict-literal", ["C16"], PD,
   """        dict_json_data.update(type=self.__class__.__name__, component_list=[c.export_dict_json_data() for c in self.component_list])""",
   """        dict_json_data.update({'type': self.__class__.__name__, 'component_list': [c.export_dict_json_data() for c in self.component_list]})""")
+
+# ---------------------------------------------------------------------------------------- C04
+M("C04-drop-team-test", "C04", "R4.1", PJ,
+  """allocating_workers = list(filter(lambda worker: worker.has_workamount_skill(task.name) and self.__is_allocated_worker(worker, task), free_worker_list))""",
+  """allocating_workers = list(filter(lambda worker: worker.has_workamount_skill(task.name), free_worker_list))""")
+M("C04-drop-fixed-id-test", "C04", "R4.2", TK,
+  """        if worker is not None:
+            if self.fixing_allocating_worker_id_list is not None:
+                if worker.ID not in self.fixing_allocating_worker_id_list:
+                    return False
+""", "")
+M("C04-skill-ge-zero", "C04", "R4.3", WK,
+  """        if task_name in self.workamount_skill_mean_map:
+            if self.workamount_skill_mean_map[task_name] > 0.0 + error_tol:
+                return True
+        return False""",
+  """        if task_name in self.workamount_skill_mean_map:
+            if self.workamount_skill_mean_map[task_name] >= 0.0:
+                return True
+        return False""")
+M("C04-facility-branch-break-deleted", "C04", "R4.1", PJ,
+  """                                free_worker_list = [w for w in free_worker_list if w.ID != worker.ID]
+                                break""",
+  """                                free_worker_list = [w for w in free_worker_list if w.ID != worker.ID]""")
+M("C04-drop-has-facility-skill", "C04", "R4.2", TK,
+  """                if worker.has_facility_skill(facility.name) and worker.has_workamount_skill(self.name):""",
+  """                if worker.has_workamount_skill(self.name):""")
+M("C04-facilities-from-all-workplaces", "C04", "R4.1", PJ,
+  """free_facility_list = list(filter(lambda facility: facility.state == BaseFacilityState.FREE, placed_workplace.facility_list))""",
+  """free_facility_list = list(filter(lambda facility: facility.state == BaseFacilityState.FREE, itertools.chain.from_iterable([wp.facility_list for wp in self.organization.workplace_list])))""")
+M("C04-free-filter-dropped", "C04", "R4.1", PJ,
+  """        free_worker_list = list(filter(lambda worker: worker.state == BaseWorkerState.FREE, worker_list))""",
+  """        free_worker_list = list(filter(lambda worker: worker.state != BaseWorkerState.WORKING, worker_list))""")
+M("C04-can-add-check-hoisted", "C04", "R4.1", PJ,
+  """                    for worker in allocating_workers:
+                        if task.can_add_resources(worker=worker):
+                            task.allocated_worker_list.append(worker)
+                            worker.assigned_task_list.append(task)
+                            free_worker_list = [w for w in free_worker_list if w.ID != worker.ID]""",
+  """                    allocating_workers = [w for w in allocating_workers if task.can_add_resources(worker=w)]
+                    for worker in allocating_workers:
+                        task.allocated_worker_list.append(worker)
+                        worker.assigned_task_list.append(task)
+                        free_worker_list = [w for w in free_worker_list if w.ID != worker.ID]""")
+M("C04-solo-check-dropped", "C04", "R4.2", TK,
+  """        for w in self.allocated_worker_list:
+            if w.solo_working:
+                return False
+""", "")
+M("C04-busy-facility-dropped", "C04", "R4.2", TK,
+  """        if facility is not None:
+            if len(facility.assigned_task_list) > 0:
+                return False
+""", "")
+M("C04-missing-skill-entry-ok", "C04", "R4.3", FA,
+  """        if task_name in self.workamount_skill_mean_map:
+            if self.workamount_skill_mean_map[task_name] > 0.0 + error_tol:
+                return True
+        return False""",
+  """        if self.workamount_skill_mean_map.get(task_name, 1.0) > 0.0 + error_tol:
+            return True
+        return False""")
+M("C04-helper-wrong-unit", "C04", "R4.1", PJ,
+  """        team = list(filter(lambda team: team.ID == worker.team_id, self.organization.team_list))[0]""",
+  """        team = self.organization.team_list[0]""")
+B("benign-filter-to-comprehension", ["C04", "C03", "C06"], PJ,
+  """allocating_workers = list(filter(lambda worker: worker.has_workamount_skill(task.name) and self.__is_allocated_worker(worker, task), free_worker_list))""",
+  """allocating_workers = [worker for worker in free_worker_list if worker.has_workamount_skill(task.name) and self.__is_allocated_worker(worker, task)]""")
